@@ -328,6 +328,8 @@ class ECDSAKey(PKey):
                 raise SSHException(str(e))
         else:
             self._got_bad_key_format_id(pkformat)
+        if not isinstance(key, ec.EllipticCurvePrivateKey):
+            raise SSHException("not an EC private key")
 
         self.signing_key = key
         self.verifying_key = key.public_key()
